@@ -5,6 +5,7 @@
 open Vx
 open C19Model
 open C19RecModel
+open C19Ac3Model
 
 let str_of_hex (s : string) = bytes_of_hex s            (* "-" = empty string *)
 let hex_of_str (l : BinNums.coq_N list) = hex_of_bytes l
@@ -61,6 +62,18 @@ let parse_op (s : string) : op =
   | ["W"; k; c] -> SetDesc (nat_of_int (int_of_string k), DWvtt (str_of_hex c))
   | ["T"; k; a; b; c] -> SetDesc (nat_of_int (int_of_string k), DStpp (str_of_hex a, str_of_hex b, str_of_hex c))
   | _ -> failwith ("bad op " ^ s)
+
+(* decodeDac3FromData / decodeDec3FromData on a payload (C19Ac3Model), printed like harness/c19/ac3.go ac3Show *)
+let ac3_dac3_obs (p : BinNums.coq_N list) : string =
+  match dac3_decode p with
+  | Base.Ok ((Coq_mkDac3 (a, b, c, d, e, f), r), z) -> S.concat "." (L.map si [a; b; c; d; e; f; r; z])
+  | _ -> "ERR"
+let ac3_dec3_obs (p : BinNums.coq_N list) : string =
+  match dec3_decode p with
+  | Base.Ok (Coq_mkDec3 (dr, subs), rest) ->
+    let sub (Coq_mkEc3Sub (a, b, c, d, e, f, g, h)) = S.concat "." (L.map si [a; b; c; d; e; f; g; h]) in
+    si dr ^ "/" ^ (match subs with [] -> "_" | _ -> S.concat "|" (L.map sub subs)) ^ "/" ^ hex_of_str rest
+  | _ -> "ERR"
 
 let avc_parse (sps : BinNums.coq_N list) = Hashtbl.find_opt avc_tab (hex_of_str sps)
 let hevc_parse (sps : BinNums.coq_N list) = Hashtbl.find_opt hevc_tab (hex_of_str sps)
@@ -711,6 +724,33 @@ let () =
           | _ -> "ERR" in
         if m = obs then Printf.printf "OK %s\n" id
         else Printf.printf "MISMATCH %s model=%s\n" id m
+      | ["Y"; id; "3"; fields; obs] ->
+        (* Dac3Box.Encode on the fields vs dac3_payload_x; when the hypotheses of C19_dac3_roundtrip hold (fields fit
+           their bits, Reserved 0, InitialZeroes 0) the theorem's conclusion is evaluated too *)
+        (match dots fields with
+         | [a; b; c; d; e; f; r; z] ->
+           let dd = Coq_mkDac3 (ni a, ni b, ni c, ni d, ni e, ni f) in
+           let p = dac3_payload_x dd (ni r) (ni z) in
+           let hyp = dac3_okb dd && int_of_n (ni r) = 0 && int_of_n (ni z) = 0 in
+           if hex_of_str p <> obs then Printf.printf "MISMATCH %s model=%s\n" id (hex_of_str p)
+           else if hyp && ac3_dac3_obs p <> fields then Printf.printf "MISMATCH %s model=decodes-to-%s\n" id (ac3_dac3_obs p)
+           else Printf.printf "OK %s %s\n" id (if hyp then "ac3hyp" else "ac3nohyp")
+         | _ -> Printf.printf "BADLINE %s\n" line)
+      | ["Y"; id; "e"; fields; obs] ->
+        (match split_on ':' fields with
+         | [dr; subs; rsv] ->
+           let dd = Coq_mkDec3 (ni dr, (if subs = "_" then [] else L.map parse_sub (split_on '|' subs))) in
+           let hyp = dec3_okb dd && rsv = "-" in
+           (match dec3_payload_x dd (str_of_hex rsv) with
+            | None -> Printf.printf "MISMATCH %s model=no-substream\n" id
+            | Some p ->
+              let want = dr ^ "/" ^ subs ^ "/" ^ rsv in
+              if hex_of_str p <> obs then Printf.printf "MISMATCH %s model=%s\n" id (hex_of_str p)
+              else if hyp && ac3_dec3_obs p <> want then Printf.printf "MISMATCH %s model=decodes-to-%s\n" id (ac3_dec3_obs p)
+              else Printf.printf "OK %s %s\n" id (if hyp then "ac3hyp" else "ac3nohyp"))
+         | _ -> Printf.printf "BADLINE %s\n" line)
+      | ["D"; id; "3"; payload; obs] -> verdict id (ac3_dac3_obs (str_of_hex payload)) obs
+      | ["D"; id; "e"; payload; obs] -> verdict id (ac3_dec3_obs (str_of_hex payload)) obs
       | ["I"; id; ops; obs] ->
         (* the init segment's bytes: C01's encoder on the tree of the model's final state; then C01's decoder on
            those bytes must return an equal tree, a fragmented init and a trex for every track (roundtrip_ok) *)
